@@ -9,6 +9,7 @@ re-drawn (bounded), so callers can rely on `compile(text)` succeeding.
 """
 from __future__ import annotations
 
+import os
 import ast
 
 NAMES = ["x", "y", "z", "foo", "bar", "os", "sys", "a", "b", "é", "data", "_p"]
@@ -203,6 +204,9 @@ def gen_filler(rng):
     return "".join(out)
 
 
+FF_BEFORE_IMPORT = True    # repair D68 (8ec4444) is in /repo
+
+
 def gen_module(rng, max_items=6, want_imports=True, final_newline=None, prologue=None):
     """
     Returns (text, info) with info = dict(n_items, has_import, ...).
@@ -254,6 +258,11 @@ def gen_module(rng, max_items=6, want_imports=True, final_newline=None, prologue
                                     "  # \U0001f389", "  # a\x0cb\u2028c"])
             if rng.random() < 0.06 and not stmts[0].startswith(("import ", "from ")):
                 line = rng.choice(["\f", "\f\f", " \f", "\f "]) .rstrip(" ") + line if False else rng.choice(["\f", "\f\f"]) + line
+            elif stmts[0].startswith(("import ", "from ")) and rng.random() < 0.08 and FF_BEFORE_IMPORT:
+                # a form feed in front of an import is outside the import statement: it stays (it belongs to the text in
+                # front); directly after another import statement it would be the listed finding D68: filtered below
+                line = rng.choice(["\f", "\f\f"]) + line
+                info["ff_before_import"] = 1
             parts.append(line + "\n")
             i += k
         parts.append(gen_filler(rng))
@@ -289,6 +298,35 @@ def gen_module(rng, max_items=6, want_imports=True, final_newline=None, prologue
         info["final_newline"] = text.endswith("\n")
         return text, info
     return "x = 1\n", dict(imports=0, compounds=0, semis=0, multiline_str=0, n_lines=2, final_newline=True)
+
+
+def ff_between_imports(text):
+    """line numbers (1-based) of top-level import statements that have a form feed in front of their first token on
+    their own line and directly follow (on the previous line) another top-level import statement: pyflyby attributes
+    that whitespace to the import in front and drops it when the block is re-rendered (listed finding D68)"""
+    try:
+        tree = ast.parse(text if text.endswith("\n") else text + "\n")
+    except (SyntaxError, ValueError):
+        return []
+    import re as _re
+    lines = _re.split("\r\n|\r|\n", text)      # the compiler's line table (a lone CR is a line break)
+    out = []
+    prev = None
+    for n in tree.body:
+        if isinstance(n, (ast.Import, ast.ImportFrom)) and prev is not None and isinstance(prev, (ast.Import, ast.ImportFrom)) \
+                and n.lineno - 1 < len(lines):
+            pre = lines[n.lineno - 1][:char_col(lines[n.lineno - 1], n.col_offset)]
+            if "\f" in pre and not pre.strip(" \t\f") and prev.end_lineno == n.lineno - 1:
+                out.append(n.lineno)
+        prev = n
+    return out
+
+
+def _strip_ff_between_imports(text):
+    lines = text.split("\n")
+    for ln in ff_between_imports(text):
+        lines[ln - 1] = lines[ln - 1].lstrip(" \t\f")
+    return "\n".join(lines)
 
 
 # --- positions independent of pyflyby -----------------------------------------
